@@ -22,8 +22,12 @@ public:
   }
   virtual void GeneratePrimaryVertex(G4Event * ev)
   {
-    ev->primaries.push_back({particle_definition, particle_momentum_direction, particle_momentum, particle_energy, particle_position, particle_time, NumberOfParticlesToBeGenerated});
+    // G4ParticleGun semantics: NumberOfParticlesToBeGenerated primaries per call
+    for (G4int k = 0; k < NumberOfParticlesToBeGenerated; k++)
+      ev->primaries.push_back({particle_definition, particle_momentum_direction, particle_momentum, particle_energy, particle_position, particle_time, NumberOfParticlesToBeGenerated});
   }
+  void SetNumberOfParticles(G4int n) { NumberOfParticlesToBeGenerated = n; }
+  G4int GetNumberOfParticles() const { return NumberOfParticlesToBeGenerated; }
 protected:
   G4int NumberOfParticlesToBeGenerated = 1;
   G4ParticleDefinition * particle_definition = nullptr;
